@@ -13,7 +13,7 @@ from __future__ import annotations
 import ast
 
 from harness.common import TranslateError, src_text, ast_digest, SRC
-from translate import c08_keys, c08_norm
+from translate import c08_keys, c08_norm, c08_parse
 
 KINDS = {'ent_id': 'KEnt', 'solid_id': 'KSolid', 'face_id': 'KFace', 'group_id': 'KGroup', 'vis_id': 'KVis',
          'node_id': 'KNode'}
@@ -197,6 +197,8 @@ def translate() -> tuple[str, dict]:
     key_rows, key_exposed, key_reads = c08_keys.keys_census(key_trees)
     node_registers = c08_keys.node_setitem_registers(trees['vmf.py'])
     fx_rows, fx_exposed, fx_reads = c08_keys.fixup_census(trees)
+    # round 4: VMF.parse as a program (the steps that touch entity / brush / face IDs, in source order)
+    parse_prog, parse_side = c08_parse.parse_program(trees['vmf.py'])
     lines = [
         '(* GENERATED by translate/c08_sites.py from /repo/src/srctools/vmf.py, instancing.py. Do not edit. *)',
         'From Coq Require Import ZArith List String.', 'Import ListNotations.', 'Open Scope string_scope.',
@@ -238,6 +240,9 @@ def translate() -> tuple[str, dict]:
         'Definition fixup_write_sites : list (string * string * kwsite * bool) := [',
         ';\n'.join('  ("%s", "%s", %s, %s)' % (f, d.replace('"', '""'), c, 'true' if ok else 'false') for f, d, c, ok, _ in fx_rows),
         '].',
+        '(* the steps of VMF.parse that touch entity / brush / face IDs, in source order (interpreted by SM/IdNest.v TParse) *)',
+        'Inductive parse_step := GPPlaceholder | GPWorld | GPDropPlaceholder | GPEntities | GPReleasePlaceholder.',
+        'Definition parse_steps : list parse_step := [' + '; '.join(parse_prog) + '].',
         '',
     ]
     side.update(releases=[list(r) for r in releases], acquires=[list(a) for a in acquires],
@@ -248,6 +253,7 @@ def translate() -> tuple[str, dict]:
                 node_setitem_registers=node_registers,
                 fixup_write_sites=[list(r) for r in fx_rows], fixup_exposed=fx_exposed, fixup_read_sites=fx_reads,
                 node_copy_registers=all(ok for _, _, c, ok, _ in key_rows if c == 'KwCtor'))
+    side.update(parse_side)
     return '\n'.join(lines), side
 
 
